@@ -5,7 +5,7 @@ HERE = os.path.dirname(os.path.dirname(os.path.abspath(__file__)))
 
 CLAIMED = {
  "C15": dict(
-   text="Structural clauses of the reorder buffer decided for every path of every handler: back-pressure discipline around each Send, FIFO-only list operations with retirement from the head, capacity guard with a >= predicate, provenance of every copied field and of the response's RspTo/Dst/Data, flush/restart clearing and gating. Chosen because ordering, exactly-once and field-faithfulness of this 330-line component are visible in the shape of its code on all paths, which no finite set of request streams covers.",
+   text="Structural clauses of the reorder buffer decided for every path of every handler: back-pressure discipline around each Send, FIFO-only list operations with retirement from the head, capacity guard with a >= predicate that is re-evaluated before every insertion of a cycle, provenance of every copied field and of the response's RspTo/Dst/Data, flush/restart clearing and gating. Chosen because ordering, exactly-once and field-faithfulness of this 330-line component are visible in the shape of its code on all paths, which no finite set of request streams covers.",
    ref="4/C15", technique="SSA path analysis with inlining and nil/bool fact pruning (SEND-DISCIPLINE), dominance cuts (GUARD), value provenance (FIELDS), who-may-call on container/list operations",
    note="akita port/list semantics trusted; timing and per-cycle widths not decided"),
  "C16": dict(
@@ -20,7 +20,7 @@ CLAIMED = {
 
 CLAIMED.update({
  "C17": dict(
-   text="Structural clauses of the banked DRAM model on all paths: one response per request under back-pressure (CanSend/Send discipline, pop after success, storage access once across retries), per-byte mask guard of masked writes, conservation of requests in the dispatch and drain loops, per-bank arrival order (no direct pipeline entry while the delay queue may hold earlier requests), provenance of response fields and storage accesses. Read-after-write values and latency independence are runtime quantities and are not decided.",
+   text="Structural clauses of the banked DRAM model on all paths: one response per request under back-pressure (CanSend/Send discipline, pop after success, storage access once across retries), per-byte mask guard of masked writes (the request buffer or any contiguous slice of it reaches storage only when the mask is nil), conservation of requests in the dispatch and drain loops, per-bank arrival order (no direct pipeline entry while the delay queue may hold earlier requests), provenance of response fields and storage accesses. Read-after-write values and latency independence are runtime quantities and are not decided.",
    ref="4/C17", technique="SSA path analysis (SEND-DISCIPLINE, must-pass, exactly-one-sink per loop iteration), dominance cuts (GUARD), value provenance (FIELDS)",
    note="akita pipelining/Storage trusted; bank selection arithmetic and latencies not decided; one recorded known finding (row-hit fast path)"),
  "C19": dict(
@@ -38,7 +38,7 @@ CLAIMED.update({
 
 CLAIMED.update({
  "C09": dict(
-   text="Structural clauses of work-group dispatch on all paths: the three placement algorithms checked as siblings of one interface (valid location only after a successful reservation on the named CU for the reserved work-group; counter and slot updated on the success path; FreeResources/HasNext shapes), SEND-DISCIPLINE and PAIR on the map request, completion accounting per ID with the message consumed, launch response only under kernelCompleted() whose three conjuncts are verified, idle-dispatcher selection in the CP, reserve/commit/clear/free symmetry of CUResourceImpl (mask sets, status constants, slot counts, offset granularities, unit counts; the LDS demand is the dispatch packet's size, static plus dynamic, on both the reserve and the free side). Non-overlap of masks for every demand sequence is value level and not decided.",
+   text="Structural clauses of work-group dispatch on all paths: the three placement algorithms checked as siblings of one interface (valid location only after a successful reservation on the named CU for the reserved work-group; counter and slot updated on the success path, the slot cleared and the per-source counter being those of the source the work-group was taken from; FreeResources/HasNext shapes), SEND-DISCIPLINE and PAIR on the map request, completion accounting per ID with the message consumed, launch response only under kernelCompleted() whose three conjuncts are verified, idle-dispatcher selection in the CP, reserve/commit/clear/free symmetry of CUResourceImpl (mask sets, status constants, slot counts, offset granularities, unit counts; the LDS demand is the dispatch packet's size, static plus dynamic, on both the reserve and the free side). Non-overlap of masks for every demand sequence is value level and not decided.",
    ref="4/C09", technique="SIBLINGS over implementations of one interface, SSA path analysis (SEND-DISCIPLINE, must-pass), dominance cuts with phi-fact pruning (GUARD), value provenance, constant tables",
    note="resourceMask internals, gridbuilder and the CU-side completion (C14) not covered here; one defect (LDS demand ignored dynamic local memory) found and repaired by a fix: commit"),
  "C11": dict(
@@ -77,9 +77,9 @@ CLAIMED.update({
 
 CLAIMED.update({
  "C03": dict(
-   text="ISA rules that are uniform across opcodes and visible in the code shape, for both ALUs and all paths: dispatch integrity of every opcode switch (one handler per case, panicking default, listed functional no-ops only), ALL-OR-NONE of condition-code writes in every handler, shift-amount intervals in every handler of a shift instruction (handlers tied to instruction names through decode table, dispatch switch and callee), destination-only operand writes and PC/EXEC writers restricted by instruction name, carry predicates of carry-in instructions evaluated in 64 bits, every float-to-integer conversion of an operand value reached only after range tests on the floating-point value (and no clamp that the operand's type makes dead), no result variable left at its zero value by an open if/else-if chain; every compare handler decided exactly on the ordering domain {less, equal, greater, unordered} against the truth table its mnemonic prescribes, with kind / signedness / width of the compared values; LDS handlers address ADDR plus their (scaled) offset field; bitwise handlers decided exactly by per-bit truth tables; operand selection of integer min/max, polarity of cndmask/cselect/cmov and of conditional branches with their target formula, operand order of sub/subrev and shift/shiftrev pairs; sources read before destinations are written; bits 32..63 of a raw operand never decide the result of a 32-bit instruction; SCC of signed add/sub from the signed overflow condition; IEEE bit patterns never used as numbers. Bit-exact arithmetic conformance needs an executable ISA transcription and is not decided.",
-   ref="4/C03", technique="constant-table evaluation (decode table and dispatch switches), must-pass path analysis (ALL-OR-NONE), interval analysis on SSA (INTERVAL), who-may-write, finite-domain evaluation of comparison skeletons (ORDER-DOMAIN), value provenance of addresses",
-   note="arithmetic, rounding, saturation and comparison semantics of individual opcodes are not decided; defect families found and repaired by fix: commits: one-sided SCC, unmasked shifts, v_cvt_i32_f32 saturation tested after conversion, v_div_scale_f64 default result and denormal classification, compare handlers (lg/nlg NaN, u32 width, CDNA3 ge_f32_e64), ds_read_b64 offset, 20 handlers of 32-bit instructions reading 64 operand bits, s_addc_u32 carry, s_cmpk compares; known findings pinned by upstream tests: GCN3 s_add_i32 SCC, v_div_fixup_f64 using bit patterns as numbers (14 sites)"),
+   text="ISA rules that are uniform across opcodes and visible in the code shape, for both ALUs and all paths: dispatch integrity of every opcode switch (one handler per case, panicking default, listed functional no-ops only), ALL-OR-NONE of condition-code writes in every handler, shift-amount intervals in every handler of a shift instruction (handlers tied to instruction names through decode table, dispatch switch and callee), destination-only operand writes and PC/EXEC writers restricted by instruction name, carry predicates of carry-in instructions evaluated in 64 bits, every float-to-integer conversion of an operand value reached only after range tests on the floating-point value (and no clamp that the operand's type makes dead), no result variable left at its zero value by an open if/else-if chain; every compare handler decided exactly on the ordering domain {less, equal, greater, unordered} against the truth table its mnemonic prescribes, with kind / signedness / width of the compared values; LDS handlers address ADDR plus their (scaled) offset field; bitwise handlers decided exactly by per-bit truth tables; operand selection of integer min/max, polarity of cndmask/cselect/cmov and of conditional branches with their target formula, operand order of sub/subrev and shift/shiftrev pairs; sources read before destinations are written; bits 32..63 of a raw operand never decide the result of a 32-bit instruction; SCC of signed add/sub from the signed overflow condition; IEEE bit patterns never used as numbers; float min / max decided on ranks and NaN operands; the SDWA select helpers decided bit by bit (origin of every result bit for every select constant and dst_unused mode) and SDWA-encoded instructions never executed as plain ones. Bit-exact arithmetic conformance needs an executable ISA transcription and is not decided.",
+   ref="4/C03", technique="constant-table evaluation (decode table and dispatch switches), must-pass path analysis (ALL-OR-NONE), interval analysis on SSA (INTERVAL), who-may-write, finite-domain evaluation of comparison skeletons (ORDER-DOMAIN), bit-provenance evaluation of field helpers (BITPROV), value provenance of addresses",
+   note="arithmetic, rounding, saturation and comparison semantics of individual opcodes are not decided; defect families found and repaired by fix: commits: one-sided SCC, unmasked shifts, v_cvt_i32_f32 saturation tested after conversion, v_div_scale_f64 default result and denormal classification, compare handlers (lg/nlg NaN, u32 width, CDNA3 ge_f32_e64), ds_read_b64 offset, 20 handlers of 32-bit instructions reading 64 operand bits, s_addc_u32 carry, s_cmpk compares, float min/max with a NaN operand, SDWA dst_unused and SDWA add, SDWA silently ignored by 36 VOP2 handlers; known findings pinned by upstream tests: GCN3 s_add_i32 SCC, v_div_fixup_f64 using bit patterns as numbers (14 sites)"),
 })
 
 CLAIMED.update({
